@@ -4,6 +4,7 @@ from __future__ import annotations
 import os
 import random
 import shutil
+from pathlib import Path
 
 import numpy as np
 
@@ -137,7 +138,7 @@ def run_double(ctx: Ctx):
             if total < 3:
                 continue
             p1 = rng.randint(1, total - 1)
-            root = tmp / f'd{n}'; root.mkdir()
+            root = tmp / f'amisc_d{n}'; root.mkdir()      # a root directory in the library's own naming scheme: a loaded file finds it again
             system, _ = fresh(root)
             case = {'double_interruption': n, 'system_seed': sys_seed, 'numpy_seed': np_seed, 'iterations': K, 'first_interruption_at_model_call': p1}
             ctx.case(case, nontrivial=True, kind='double')
@@ -154,7 +155,9 @@ def run_double(ctx: Ctx):
                     l1 = System.load_from_file(err_file)
                 finally:
                     os.chdir(cwd0)
-                l1.root_dir = system.root_dir          # keep saving into the same directory
+                if l1.root_dir is None or Path(l1.root_dir).resolve() != Path(system.root_dir).resolve():
+                    ctx.violate('C13:resumed-run-cannot-save', f'the system loaded from {err_file} has root directory {l1.root_dir}: resumed training would not save '
+                                f'into {system.root_dir} when it is interrupted again', case); continue
                 # second interruption: at a later model call of the resumed run
                 with injector(None) as injc, c12.reseeding(np_seed):
                     pass
@@ -163,7 +166,6 @@ def run_double(ctx: Ctx):
                     l1c = System.load_from_file(err_file) if second is None else None
                     if l1c is None:
                         break
-                    l1c.root_dir = system.root_dir
                     try:
                         with injector(('call_model', p2)), c12.reseeding(np_seed):
                             try:
@@ -223,8 +225,19 @@ def run_executor_interrupt(ctx: Ctx):
         for n in range(ctx.pick(2, 8)):
             sys_seed = ctx.seed * 1409 + n; np_seed = rng.randint(0, 10 ** 6); K = 4
 
-            def fresh(root):
-                return systems.persist_chain_system(random.Random(sys_seed), ncomp=2, name='cx', root_dir=root, with_alpha=True, costs=False, serial=True)
+            # every other system has a first component WITHOUT surrogate: its model runs inside every prediction, also inside the candidate
+            # look-aheads that refine() hands to the executor (the interruption can then arrive while the logger is detached)
+            analytic_first = n % 2 == 1
+            if analytic_first:
+                for j_ in range(200):
+                    _, sp_ = systems.persist_chain_system(random.Random(sys_seed + 7919 * j_), ncomp=2, name='cx', with_alpha=True, costs=False, serial=True, no_surrogate_prob=0.5)
+                    if not sp_[0]['has_surrogate'] and sp_[1]['has_surrogate']:
+                        sys_seed = sys_seed + 7919 * j_; break
+                else:
+                    analytic_first = False
+
+            def fresh(root, _seed=sys_seed, _p=(0.5 if analytic_first else 0.0)):
+                return systems.persist_chain_system(random.Random(_seed), ncomp=2, name='cx', root_dir=root, with_alpha=True, costs=False, serial=True, no_surrogate_prob=_p)
             ref_sys, spec = fresh(None)
             sw.update(n=0, interrupt_at=None, exc=None)
             with ThreadPoolExecutor(max_workers=1) as pool, c12.reseeding(np_seed):
@@ -233,51 +246,61 @@ def run_executor_interrupt(ctx: Ctx):
             ntrain = sum(len(d) for c in ref_sys.components if c.has_surrogate for d in c.training_data.yi_map.values())
             if ntrain < 3:
                 continue
-            p = rng.randint(2, ntrain)
-            root = tmp / f'd{n}'; root.mkdir()
-            system, _ = fresh(root)
-            case = {'executor_interruption': n, 'system_seed': sys_seed, 'numpy_seed': np_seed, 'iterations': K, 'interrupted_model_evaluation': p}
-            ctx.case(case, nontrivial=True, kind='executor-interruption')
-            sw.update(n=0, interrupt_at=p, exc=Crash)
-            interrupted = False
-            try:
-                with ThreadPoolExecutor(max_workers=1) as pool, c12.reseeding(np_seed):
-                    try:
-                        system.fit(max_iter=K, num_refine=10, max_tol=-1.0, executor=pool)
-                    except Crash:
+            # with a surrogate-free component the evaluation count also covers the predictions made while training
+            ps = sorted(set(rng.randint(2, sw['n']) for _ in range(8))) if analytic_first else [rng.randint(2, ntrain)]
+            for p in ps:
+                root = tmp / f'd{n}_{p}'; root.mkdir()
+                system, _ = fresh(root)
+                case = {'executor_interruption': n, 'system_seed': sys_seed, 'numpy_seed': np_seed, 'iterations': K, 'interrupted_model_evaluation': p,
+                        'first_component_without_surrogate': analytic_first}
+                ctx.case(case, nontrivial=True, kind='executor-interruption')
+                sw.update(n=0, interrupt_at=p, exc=Crash)
+                interrupted = False
+                try:
+                    with ThreadPoolExecutor(max_workers=1) as pool, c12.reseeding(np_seed):
+                        try:
+                            system.fit(max_iter=K, num_refine=10, max_tol=-1.0, executor=pool)
+                        except Crash:
+                            interrupted = True
+                except Exception as e:
+                    # on the way out fit() logs after saving; while candidate look-aheads run in the executor the logger is detached, and the log call then
+                    # raises on top of the interruption - the property is about what was saved, so this counts as interrupted
+                    if isinstance(e.__context__, Crash) or isinstance(e.__cause__, Crash):
                         interrupted = True
-            except Exception as e:
-                ctx.violate('C13:interrupted-fit-raises-something-else', f'{type(e).__name__}: {e}', case); continue
-            finally:
-                sw.update(interrupt_at=None, exc=None)
-            try:
-                if not interrupted:
-                    nerr = sum(len(d) for c in system.components if c.has_surrogate for d in c.training_data.error_map.values())
-                    ctx.violate('C13:interruption-swallowed', f'a model evaluation was interrupted (a BaseException raised inside evaluation #{p}, run through an executor) '
-                                f'but fit() went on to the end; {nerr} evaluation(s) are recorded as model failures', case); continue
-                err_file = system.root_dir / 'surrogates' / 'cx_error.yml'
-                os.chdir(tmp)
-                try:
-                    l1 = System.load_from_file(err_file)
-                except Exception as e:
-                    ctx.violate('C13:saved-state-does-not-load', f'{type(e).__name__}: {e}', case); continue
+                    else:
+                        ctx.violate('C13:interrupted-fit-raises-something-else', f'{type(e).__name__}: {e}', case); continue
                 finally:
-                    os.chdir(cwd0)
-                bad = data_truthful(l1, spec)
-                if bad:
-                    ctx.violate('C13:saved-value-not-a-model-output', f'stored {bad[0]}', case)
-                l1.root_dir = None
+                    sw.update(interrupt_at=None, exc=None)
                 try:
-                    with c12.reseeding(np_seed):
-                        l1.fit(max_iter=K - l1.refine_level, num_refine=10, max_tol=-1.0)
-                except Exception as e:
-                    ctx.violate('C13:resume-raises', f'{type(e).__name__}: {e}', case); continue
-                st = c12.full_state(l1)
-                diffs = [d for d in c12.diff_states(ref, st) if d != 'history' or not c12.history_equiv(ref['history'], st['history'])]
-                if diffs:
-                    ctx.violate('C13:resumed-run-differs', f'after an interruption inside a model evaluation run through an executor, {diffs} differ from the uninterrupted run', case)
-            finally:
-                shutil.rmtree(root, ignore_errors=True)
+                    if not interrupted:
+                        nerr = sum(len(d) for c in system.components if c.has_surrogate for d in c.training_data.error_map.values())
+                        ctx.violate('C13:interruption-swallowed', f'a model evaluation was interrupted (a BaseException raised inside evaluation #{p}, run through an executor) '
+                                    f'but fit() went on to the end; {nerr} evaluation(s) are recorded as model failures', case); continue
+                    err_file = system.root_dir / 'surrogates' / 'cx_error.yml'
+                    if not err_file.exists():
+                        ctx.violate('C13:no-error-file', f'no cx_error.yml was written when model evaluation #{p} was interrupted (training through an executor)', case); continue
+                    os.chdir(tmp)
+                    try:
+                        l1 = System.load_from_file(err_file)
+                    except Exception as e:
+                        ctx.violate('C13:saved-state-does-not-load', f'{type(e).__name__}: {e}', case); continue
+                    finally:
+                        os.chdir(cwd0)
+                    bad = data_truthful(l1, spec)
+                    if bad:
+                        ctx.violate('C13:saved-value-not-a-model-output', f'stored {bad[0]}', case)
+                    l1.root_dir = None
+                    try:
+                        with c12.reseeding(np_seed):
+                            l1.fit(max_iter=K - l1.refine_level, num_refine=10, max_tol=-1.0)
+                    except Exception as e:
+                        ctx.violate('C13:resume-raises', f'{type(e).__name__}: {e}', case); continue
+                    st = c12.full_state(l1)
+                    diffs = [d for d in c12.diff_states(ref, st) if d != 'history' or not c12.history_equiv(ref['history'], st['history'])]
+                    if diffs:
+                        ctx.violate('C13:resumed-run-differs', f'after an interruption inside a model evaluation run through an executor, {diffs} differ from the uninterrupted run', case)
+                finally:
+                    shutil.rmtree(root, ignore_errors=True)
     finally:
         sw.update(n=0, interrupt_at=None, exc=None)
         os.chdir(cwd0)
@@ -347,8 +370,9 @@ def run_monitor_interrupt(ctx: Ctx):
                                 f'but {len(l1.train_history)} history entries (one entry per activation)', case)
                 l1.root_dir = None
                 try:
-                    with c12.reseeding(np_seed):
-                        l1.fit(max_iter=K - l1.refine_level, num_refine=10, max_tol=-1.0, test_set=test_set, start_test_check=1)
+                    if l1.refine_level < K:      # (an interruption while the LAST step was monitored leaves nothing to resume: fit() always makes one step)
+                        with c12.reseeding(np_seed):
+                            l1.fit(max_iter=K - l1.refine_level, num_refine=10, max_tol=-1.0, test_set=test_set, start_test_check=1)
                 except Exception as e:
                     ctx.violate('C13:resume-raises', f'{type(e).__name__}: {e}', case); continue
                 st = c12.full_state(l1)
